@@ -77,7 +77,7 @@ func genTable(rng *fw.Rng, name string, count int) TableSpec {
 // genTableAt: with inside != nil all geometries lie inside that box (minx miny maxx maxy).
 func genTableAt(rng *fw.Rng, name string, count int, inside *[4]float64) TableSpec {
 	t := TableSpec{Name: name, GeomCol: fw.Pick(rng, []string{"geom", "geometry", "shape"}), GeomType: fw.Pick(rng, []string{"POLYGON", "POLYGON", "MULTIPOLYGON", "POINT", "LINESTRING"}),
-		SRS: fw.Pick(rng, []int{28992, 3857, 3035, 4326}), Cols: genAttrCols(rng)}
+		SRS: fw.Pick(rng, []int{28992, 3857, 3035, 4326, 100001, 900913}), Cols: genAttrCols(rng)}
 	ox, oy := 0.0, 0.0
 	if rng.Chance(3, 4) { // away from the origin (also negative)
 		ox, oy = float64(rng.Intn(800000))-400000, 300000+float64(rng.Intn(300000))
@@ -337,8 +337,11 @@ func checkWritten(dst string, t *TableSpec, expectRows []RowSpec) (fs [][2]strin
 		stats["extents_compared"]++
 	}
 	// srs row
-	wantSRS := map[int]string{28992: fmt.Sprintf("%s|%s|%d|%s|%s", srsRD.Name, srsRD.Organization, srsRD.OrganizationCoordsysID, srsRD.Definition, srsRD.Description),
-		3035: fmt.Sprintf("%s|%s|%d|%s|%s", srsETRS.Name, srsETRS.Organization, srsETRS.OrganizationCoordsysID, srsETRS.Definition, srsETRS.Description)}
+	wantSRS := map[int]string{28992: srsRowString(srsRD), 3035: srsRowString(srsETRS), 100001: srsRowString(srsLocalRD), 900913: srsRowString(srsCustom)}
+	stats["srs_rows_compared"]++
+	if t.SRS == 100001 || t.SRS == 900913 {
+		stats["srs_id_differs_from_organization_id"]++
+	}
 	if w, ok := wantSRS[t.SRS]; ok && rt.SRSRow != w {
 		add("srs-differs", fmt.Sprintf("table %s: spatial reference system row %q, source has %q", t.Name, rt.SRSRow, w))
 	}
@@ -444,7 +447,7 @@ func init() {
 		},
 		Rule: "TargetGeopackage (Init, CreateTables, Table=..., WriteFeatures on a channel fed by the harness, Close) on schemas obtained through SourceGeopackage.GetTableInfo from generated sources: 1-6 INTEGER/REAL/TEXT attributes with NULLs, POLYGON/MULTIPOLYGON/POINT/LINESTRING incl. empty geometries, geometries away from the origin, 4 reference systems, optionally a second table on the same target; page sizes {1,2,3,7,10} x every count 0..3*page+1 enumerated, plus random (count, page) up to page 1000; the file is read back with a plain sqlite3 connection: row count and order (fids ascending with gaps), attributes, decoded geometry, R-tree ids and boxes (float32 rounded outwards), gpkg_contents extent = bounding box of non-empty geometries (NULL if none), schema, geometry registration, srs row; non-trivial = stream longer than one page",
 		Required: func(string) []string {
-			return []string{"class:empty_stream", "class:exact_multiple_of_page", "class:multiple_plus_one", "class:two_or_more_pages", "two_tables_in_sequence", "empty_geometries", "index_entries_compared", "extents_compared", "exh:count_x_page_grid", "page_size:1000"}
+			return []string{"class:empty_stream", "class:exact_multiple_of_page", "class:multiple_plus_one", "class:two_or_more_pages", "two_tables_in_sequence", "empty_geometries", "index_entries_compared", "extents_compared", "srs_rows_compared", "srs_id_differs_from_organization_id", "exh:count_x_page_grid", "page_size:1000"}
 		},
 		MinNonTriv:  50,
 		Exhaustive:  map[string]string{"exh:count_x_page_grid": "page size in {1,2,3,7,10} x every feature count 0..3*page+1"},
